@@ -424,3 +424,6 @@ def t3(run, T):
                 else:
                     run.ok("C14.T3", inst, w, "centre (%.2f,%.2f) inner side, ends attached" % g["center"])
     run.floor("C14.T3", "corner_arcs", n, 25)
+
+
+run_flow = run
